@@ -5,15 +5,15 @@
    for ALL schemas, universes, documents, operation names, variables and fuels.
 
    Passes covered by theorems (engine order): directive_include_skip (partial), fragment_spread_inlining,
-   remove_self_aliasing, fragment_definition_removal (partial), field_deduplication.
-   Not covered by theorems (model correspondence + semantic differential only):
-   inline_selections_from_inline_fragments, inline_fragment_selection_merging; the variable passes
-   are covered by the semantic differential only. *)
+   remove_self_aliasing, inline_selections_from_inline_fragments (partial), inline_fragment_selection_merging
+   (partial: merges that keep the response order), fragment_definition_removal (partial), field_deduplication;
+   the variable passes are covered by the semantic differential only. *)
 From Gv Require Import lib.Bytes lib.Json lib.Gql lib.Exec C03.Model C03.Spec
      C03.ProofsExec C03.ProofsRel C03.ProofsDoc C03.ProofsPasses C03.ProofsDedup C03.ProofsMono
      C03.ProofsCompose C03.Examples C03.ProofsRefute C03.ProofsDirs
      C03.ProofsInlineExecCong C03.ProofsInlineExecRel C03.ProofsInlineExec C03.ProofsInlineExecDoc C03.ExamplesInline
-     C03.ProofsInlineIdem C03.ProofsMergeIdem C03.ProofsComposeInline.
+     C03.ProofsInlineIdem C03.ProofsMergeIdem C03.ProofsComposeInline
+     C03.ProofsMergeFlat C03.ProofsMergeRel C03.ProofsMergeExec C03.ProofsMergeExec2 C03.ProofsMergePass C03.ProofsComposeFull C03.ProofsComposeSf C03.ProofsMergeIdem2.
 From Coq Require Import List Permutation.
 
 (* ---- the executor: fuel only decides whether an execution finishes ---- *)
@@ -219,8 +219,9 @@ Print Assumptions c03_example_hypotheses.
    The pass decides with the static type of a selection set (couldInline), the executor with the
    runtime type.  Executable hypotheses (each shown to be needed below):
      static_schema_ok S : "_Entity" is not declared; every name in an object's implements list passes
-                          the executor's type test for that object; a field of a type T has, in every type
-                          T applies to, a type that is the same or an object type the field's type applies to;
+                          the executor's type test for that object; where a type O passes the executor's test
+                          for a type T, each field of T has in O the same type name, or an object type that passes
+                          for T's, or (both interfaces) one that passes for T's and is implemented only together with it;
      types_known S d    : root types of the operations and types of the fragment definitions are declared;
      keys_agree d       : fields with the same response key name the same field (the executor runs all
                           of them with the first one's definition).
@@ -349,10 +350,10 @@ Theorem c03_merge_selections_fields_reorder :
 Proof. exact merge_sel_fields_reorder. Qed.
 Print Assumptions c03_merge_selections_fields_reorder.
 
-Theorem c03_merge_selections_idempotent_partial :
-  forall d : document, merge_settled dirs_eqb (merge_sel d) = true -> merge_sel (merge_sel d) = merge_sel d.
-Proof. exact merge_sel_idempotent_partial. Qed.
-Print Assumptions c03_merge_selections_idempotent_partial.
+(* idempotent on every document: the output holds no mergeable pair at any level *)
+Theorem c03_merge_selections_idempotent : forall d : document, merge_sel (merge_sel d) = merge_sel d.
+Proof. exact merge_sel_idempotent. Qed.
+Print Assumptions c03_merge_selections_idempotent.
 
 Example c03_merge_selections_idempotent_nontrivial :
   merge_settled dirs_eqb (merge_sel d_mreorder) = true /\ merge_sel d_mreorder <> d_mreorder.
@@ -392,3 +393,86 @@ Example c03_norm_inline_hypotheses :
   oof_b (rs_errs (execute 30 S1 U1 Mono (norm_upto_inline S1 [] d_full) (Some n_Q) (JObj []))) = false /\
   oof_b (rs_errs (execute 30 S1 U1 Mono (norm_proved_inline S1 [] d_full) (Some n_Q) (JObj []))) = false.
 Proof. exact ex_full_hypotheses. Qed.
+
+(* ---- inline_fragment_selection_merging, when it keeps the order of the response ----
+   merge_in_order S d (executable; follows the pass through every selection list it processes): between an
+   inline fragment and the last fragment it absorbs stand only absorbed fragments and fragments on another
+   OBJECT type of S (never entered together with it); between a field and the last field it absorbs stand
+   only absorbed fields and fields with another response key or without sub-selections.
+   (The comparison of the code -- equal names, aliases, argument sets and directive multisets -- is what
+   the hypothesis is evaluated with; the proof uses that equal directive multisets include/exclude alike
+   and that the executor answers a response key with the first field's name and arguments.) *)
+Theorem c03_merge_selections_preserves_exec_partial :
+  forall (S : schema) (U : universe) (d : document) (opn : option name) (v : json),
+    merge_in_order S d = true ->
+    forall fuel fuel' : nat,
+      oof_b (rs_errs (execute fuel S U Mono d opn v)) = false ->
+      oof_b (rs_errs (execute fuel' S U Mono (merge_sel d) opn v)) = false ->
+      execute fuel' S U Mono (merge_sel d) opn v = execute fuel S U Mono d opn v.
+Proof. exact merge_sel_preserves_exec_partial. Qed.
+Print Assumptions c03_merge_selections_preserves_exec_partial.
+
+(* non-vacuity: { a { id }  a { name }  i { ... on A { name } ... on B { q } ... on A { x: id } id } } has a field
+   merge and a fragment merge (over a fragment on another object type) and satisfies the hypothesis; the two
+   refutation witnesses above do not *)
+Example c03_merge_selections_hypotheses :
+  merge_in_order S1 d_merge = true /\
+  merge_sel d_merge = qdoc [ fld n_a [fld n_id []; fld n_name []];
+                             fld n_i [ SInline (Some n_A) [] [fld n_name []; SField (Some n_x) n_id [] [] []];
+                                       SInline (Some n_B) [] [fld n_q []]; fld n_id [] ] ] /\
+  execute 30 S1 U1 Mono (merge_sel d_merge) None (JObj []) = execute 30 S1 U1 Mono d_merge None (JObj []) /\
+  rs_errs (execute 30 S1 U1 Mono d_merge None (JObj [])) = [] /\
+  merge_in_order S1 d_mreorder = false /\ merge_in_order S1 d_freorder = false.
+Proof. exact ex_merge_hypotheses. Qed.
+
+(* ---- the whole selection pipeline of the model, in engine order ----
+   norm_selections S jv d = dedup (remove_frag_defs (merge_sel (inline_sel S (self_alias (frag_inline S (include_skip jv d))))))
+   norm_upto_merge S jv d = merge_sel (norm_upto_inline S jv d)
+   Same hypotheses as c03_norm_preserves_exec_partial plus those of the two passes.  Besides the first
+   and the last execution, the executions after inlining and after merging must finish with some fuel (the theorems of those two passes relate two fuels, those of the others one). *)
+Theorem c03_norm_preserves_exec_full_partial :
+  forall (S : schema) (U : universe) (d : document) (opn : option name) (v : json),
+    (forall o, pick_op d opn = Some o ->
+               include_skip_ok (obj_members v) (effective_vars o (obj_members v)) d = true) ->
+    ops_spread_free (frag_inline S (include_skip (obj_members v) d)) = true ->
+    static_schema_ok S = true ->
+    types_known S (norm_pre_inline S (obj_members v) d) = true ->
+    keys_agree (norm_pre_inline S (obj_members v) d) = true ->
+    inline_sel S (norm_pre_inline S (obj_members v) d) = inline_sel_pre_repair S (norm_pre_inline S (obj_members v) d) ->
+    merge_in_order S (norm_upto_inline S (obj_members v) d) = true ->
+    forall fuel fuel1 fuel2 fuel' : nat,
+      oof_b (rs_errs (execute fuel S U Mono d opn v)) = false ->
+      oof_b (rs_errs (execute fuel1 S U Mono (norm_upto_inline S (obj_members v) d) opn v)) = false ->
+      oof_b (rs_errs (execute fuel2 S U Mono (norm_upto_merge S (obj_members v) d) opn v)) = false ->
+      oof_b (rs_errs (execute fuel' S U Mono (norm_selections S (obj_members v) d) opn v)) = false ->
+      execute fuel' S U Mono (norm_selections S (obj_members v) d) opn v = execute fuel S U Mono d opn v.
+Proof. exact norm_preserves_exec_full_partial'. Qed.
+Print Assumptions c03_norm_preserves_exec_full_partial.
+
+(* non-vacuity: a request with a redex of every one of the seven passes *)
+Example c03_norm_full_hypotheses :
+  (forall o, pick_op d_all (Some n_Q) = Some o ->
+             include_skip_ok (obj_members (JObj [])) (effective_vars o (obj_members (JObj []))) d_all = true) /\
+  ops_spread_free (frag_inline S2 (include_skip (obj_members (JObj [])) d_all)) = true /\
+  static_schema_ok S2 = true /\
+  types_known S2 (norm_pre_inline S2 [] d_all) = true /\
+  keys_agree (norm_pre_inline S2 [] d_all) = true /\
+  inline_sel S2 (norm_pre_inline S2 [] d_all) = inline_sel_pre_repair S2 (norm_pre_inline S2 [] d_all) /\
+  merge_in_order S2 (norm_upto_inline S2 [] d_all) = true /\
+  norm_upto_inline S2 [] d_all <> norm_pre_inline S2 [] d_all /\
+  norm_upto_merge S2 [] d_all <> norm_upto_inline S2 [] d_all /\
+  oof_b (rs_errs (execute 40 S2 U1 Mono d_all (Some n_Q) (JObj []))) = false /\
+  oof_b (rs_errs (execute 40 S2 U1 Mono (norm_upto_inline S2 [] d_all) (Some n_Q) (JObj []))) = false /\
+  oof_b (rs_errs (execute 40 S2 U1 Mono (norm_upto_merge S2 [] d_all) (Some n_Q) (JObj []))) = false /\
+  oof_b (rs_errs (execute 40 S2 U1 Mono (norm_selections S2 [] d_all) (Some n_Q) (JObj []))) = false.
+Proof. exact ex_all_hypotheses'. Qed.
+
+Example c03_norm_full_normal_form :
+  norm_selections S2 [] d_all =
+  [ DOp {| op_kind := OpQuery; op_name := Some n_Q;
+           op_vars := [{| vd_name := n_s; vd_type := (TNamed [66;111;111;108;101;97;110]); vd_default := Some (VBool false); vd_dirs := [] |}];
+           op_dirs := [];
+           op_sels := [ SField None n_a [] [] [ SField None n_id [] [] []; SField None n_name [] [] [] ];
+                        SField None n_i [] [] [ SField None n_id [] [] [];
+                                                SInline (Some n_A) [] [SField None n_name [] [] []; SField (Some n_x) n_id [] [] []] ] ] |} ].
+Proof. exact ex_all_normal_form. Qed.
